@@ -984,9 +984,9 @@ func runC03V(r *Run, rng *Rng, replay string) {
 	e := newALUEnv()
 	ops := c03vEnumerate(e)
 	r.CountN("c03v:implemented-opcodes", len(ops))
-	perOp, perSDWA := 14, 5
+	perOp, perSDWA := 100, 20
 	if r.Tier == "thorough" {
-		perOp, perSDWA = 160, 40
+		perOp, perSDWA = 1000, 150
 	}
 	only := os.Getenv("C03V_ONLY")
 	type rec struct {
@@ -1078,7 +1078,12 @@ func runC03V(r *Run, rng *Rng, replay string) {
 		case spec[i] == x.impl:
 			r.Case(x.line, x.impl)
 		default:
-			sig := fmt.Sprintf("C03.%s.%s.%s_%d.%s%s", c.op.arch, c.op.name, c.op.format, c.op.op, c03vAspect(x.impl, spec[i], valu), c03vFeature(c))
+			// whole-form defects (SDWA selection, CLAMP, 64-bit inline float constants) are keyed by the form alone
+			ft := c03vFeature(c)
+			sig := fmt.Sprintf("C03.%s.%s.%s_%d.%s%s", c.op.arch, c.op.name, c.op.format, c.op.op, c03vAspect(x.impl, spec[i], valu), ft)
+			if ft == ".sdwa" || ft == ".clamp" || ft == ".inlinef64" {
+				sig = fmt.Sprintf("C03.%s.%s.%s_%d%s", c.op.arch, c.op.name, c.op.format, c.op.op, ft)
+			}
 			if sigSeen[sig] < 3 { // a few concrete inputs per signature; the rest is counted
 				r.Failf(sig, x.line, "impl=%s spec=%s", x.impl, spec[i])
 			}
